@@ -911,7 +911,7 @@ impl<'a> Model<'a> {
             env.tip = tip;
             let out = self.run_advance(ms, env, 0, Oracle::AllOk, 1, true, false).map_err(|v| Viol::new(format!("probe/{}", v.key), format!("during tip-only probe at tip {tip}: {}", v.msg)))?;
             check_lifecycle(ms, &out.ms, &probe_op, None).map_err(|v| Viol::new(format!("probe/{}", v.key), format!("during tip-only probe at tip {tip}: {}", v.msg)))?;
-            if std::env::var("C18_TRACE").is_ok() {
+            if trace_enabled() {
                 eprintln!("probe tip {tip}: {:?}\n    txs {:?}", out.adv, out.ms.transactions().iter().map(|t| (state_name(&t.state()), u32::from(t.scheduled_height()), t.anchor_boundary().map(u32::from), t.unsatisfiable())).collect::<Vec<_>>());
             }
             *last = Some((out.adv.clone(), out.targets));
@@ -1250,6 +1250,11 @@ impl<'a> Subject for Model<'a> {
         }
         Ok(())
     }
+}
+
+fn trace_enabled() -> bool {
+    static T: std::sync::OnceLock<bool> = std::sync::OnceLock::new();
+    *T.get_or_init(|| std::env::var("C18_TRACE").is_ok())
 }
 
 pub fn viol(key: impl Into<String>, msg: impl Into<String>) -> Viol {
